@@ -171,4 +171,40 @@ theorem sendWith_cases (env : Env) (dh : Option Nat) (m u b ct : Str) (w : World
           (hAdd (World.get { w with heap := w.heap ++ [w.get a0, []] } w.heap.length) contentTypeKey ct) (decide (ct ≠ []))
         simpa using this _
 
+/-- what the serializer stage yields: body record and content type (`Err` aborts before anything is sent) -/
+def serialize (d : ApiDef) (env : Env) (body : Option Body) : Except ErrC (Str × Str) :=
+  match d.kind with
+  | .noBody => .ok ("nil".toList, [])
+  | .body => match body with
+    | none => .ok ("nil".toList, d.contentType)
+    | some b => (env.jsonSer b).map (·, d.contentType)
+  | .multipart => match body with
+    | none => .ok ("nil".toList, [])
+    | some b => env.mpSer b
+
+theorem effect_eq_sendWith (api : Api) (d : ApiDef) (env : Env) (ps : List (Str × Val)) (body : Option Body)
+    (tgt : Nat) (w : World) :
+    effect {} api d env ps body tgt w =
+      match serialize d env body with
+      | .error e => (.resp (some e) none, w)
+      | .ok (b, ct) =>
+        match sendWith env api.defaultHeader d.method (urlOf {} api d ps) b ct w with
+        | (.error e, w) => (.resp (some e) none, w)
+        | (.ok raw, w) => decodeResponseBody true env raw tgt w := by
+  unfold effect serialize sendWith
+  cases d.kind with
+  | noBody => simp only [dnr_eq]; rfl
+  | body =>
+    cases body with
+    | none => rfl
+    | some b => simp only []; cases h : env.jsonSer b <;> simp only [Except.map] <;> rfl
+  | multipart =>
+    cases body with
+    | none => rfl
+    | some b =>
+      simp only []
+      cases h : env.mpSer b with
+      | error e => rfl
+      | ok p => cases p; rfl
+
 end FpgoVerif.C17
